@@ -252,21 +252,22 @@ func (c *Ctx) BodySchema(label string) *Schema {
 	return &Schema{Type: "string"}
 }
 
-// ResponseHeaderSchema draws a primitive or array-of-primitive header schema.
-func (c *Ctx) ResponseHeaderSchema() *Schema {
+// ResponseHeaderSchema draws a primitive or array-of-primitive header schema that is
+// admissible at the given matrix position (response-header or component-header).
+func (c *Ctx) ResponseHeaderSchema(pos string) *Schema {
 	t := c.T
 	p := c.prim("rh_prim")
 	s := p.Schema()
 	c.Tag("rheader:" + p.Name)
 	if rapid.IntRange(0, 3).Draw(t, "rh_ref") == 0 && c.AllowSchema(s, "component") {
 		r := c.AddSchema(c.CompName("Hdr", "rh"), s)
-		if c.AllowSchema(r, "response-header", "component-header") {
+		if c.AllowSchema(r, pos) {
 			s = r
 		}
 	}
-	if rapid.IntRange(0, 3).Draw(t, "rh_array") == 0 {
+	if rapid.IntRange(0, 2).Draw(t, "rh_array") == 0 {
 		a := &Schema{Type: "array", Items: s}
-		if c.AllowSchema(a, "response-header", "component-header") {
+		if c.AllowSchema(a, pos) {
 			c.Tag("rheader:array")
 			return a
 		}
@@ -304,8 +305,13 @@ func (c *Ctx) Response(rich bool) *Response {
 		case 1:
 			name = "X-RH" + strings.ToUpper(c.PlainName("id", "rhupper"))[0:2] + c.PlainName("k", "rhk")
 		}
-		h := &Header{Required: rapid.Bool().Draw(t, "rh_required"), Schema: c.ResponseHeaderSchema()}
-		if rapid.IntRange(0, 3).Draw(t, "rh_component") == 0 && c.Allow("header-component") {
+		asComponent := rapid.IntRange(0, 3).Draw(t, "rh_component") == 0 && c.Allow("header-component")
+		pos := "response-header"
+		if asComponent {
+			pos = "component-header"
+		}
+		h := &Header{Required: rapid.Bool().Draw(t, "rh_required"), Schema: c.ResponseHeaderSchema(pos)}
+		if asComponent {
 			cs := c.comps()
 			if cs.Headers == nil {
 				cs.Headers = map[string]*Header{}
